@@ -570,7 +570,8 @@ def make_event_instance(cls, idx):
             line = '%d Raised Error' % (480 + idx)
             inst = cls(line, title=fields['title'], description=fields['description'], headers=hdrs)
     else:
-        inst = cls('raised-%d' % idx)
+        # text that is hostile to naive logging / formatting of the traceback (braces, percent signs)
+        inst = cls('raised-%d {not_a_field} %%s {0} }{ {"json": 1}' % idx)
         return inst, {'code': 500, 'line': '500 Internal Server Error', 'headers': {},
                       'body': ('json', ref_fields('500 Internal Server Error',
                                                   {'title': None, 'description': None, 'code': None, 'href': None,
@@ -668,6 +669,20 @@ def apply_preset(resp, preset):
         resp.render_body()
 
 
+class _CustomResponse(falcon.Response):
+    """An application's own response type (documented `response_type` argument); behaviour unchanged."""
+
+
+class _CustomAsgiResponse(falcon.asgi.Response):
+    pass
+
+
+def _response_type_kw(case, asyn):
+    if not case.get('custom_response_type'):
+        return {}
+    return {'response_type': _CustomAsgiResponse if asyn else _CustomResponse}
+
+
 def build_choice_app(case, rec):
     """-> (app, events) with events = [(site, instance, builtin outcome, class)] in raise order."""
     asyn = case['stack'] == 'asgi'
@@ -729,7 +744,7 @@ def build_choice_app(case, rec):
             async def on_get(self, req, resp, id):
                 responder_body(resp)
 
-        app = falcon.asgi.App(middleware=[Middleware()])
+        app = falcon.asgi.App(middleware=[Middleware()], **_response_type_kw(case, True))
     else:
         class Middleware(object):
             def process_request(self, req, resp):
@@ -753,7 +768,7 @@ def build_choice_app(case, rec):
             def on_get(self, req, resp, id):
                 responder_body(resp)
 
-        app = falcon.App(middleware=[Middleware()])
+        app = falcon.App(middleware=[Middleware()], **_response_type_kw(case, False))
 
     app.resp_options.media_handlers[BOOM_TYPE] = BoomHandler(fire)
     app.add_route('/item/{id}', Resource())
@@ -936,6 +951,7 @@ def _choice_case(draw):
         'second': second,
         'handler_actions': draw(st.lists(st.sampled_from(HANDLER_ACTIONS), min_size=N_HANDLERS,
                                          max_size=N_HANDLERS)),
+        'custom_response_type': draw(st.sampled_from([False, False, True])),
     }
 
 
